@@ -25,7 +25,7 @@ type FmtCase struct {
 }
 
 var fmtInPaths = []string{"f.txt", "d/f.txt", "d/e/report.txt", "text.txt", "a-b_c/x.tar.gz", "../up/t.txt", "/abs/dir/g.txt", "data/s.in.txt", "d.x/f", "x/mat.txt", "../../pp/q.gz", "t.txt", "./.hid/in.txt", "./../o.txt", "./x.txt", ".h/y"}
-var fmtVals = []string{"v", "x1", "a.b", "p-q", "s", "ttt", "rx.txt", "d/f", "0", "F_f"}
+var fmtVals = []string{"v", "x1", "a.b", "p-q", "s", "ttt", "rx.txt", "d/f", "0", "F_f", "$2", "a$b"}
 var fmtMods = []string{"basename", "dirname", "%.txt", "%.gz", "%xt", "%t", "s/f/F/", "s/d/D/", "s/.txt/.csv/", "s/t//", "%.tar.gz", "s/./_/", "s/x/../"}
 
 var validPath = regexp.MustCompile(`^[0-9A-Za-z/._-]+$`)
